@@ -3,6 +3,32 @@ import json, os
 V = os.path.dirname(os.path.dirname(os.path.abspath(__file__)))
 props = [json.loads(l)["id"] for l in open(os.path.join(V, "properties.jsonl"))]
 CHECKS = {
+ "C05": dict(
+   text="Coq theorems (Props/C05.v; proofs Scope/WfProofs*.v, Gsm/DistinctStartProofs.v, 1700 lines): for every token list with "
+        "strictly increasing positions (what the lexing model guarantees, C16) every measurement starts at a code token, ends "
+        "just past a code token, has start index < end index, carries as name an identifier token inside its span, and has "
+        "1 <= length <= distinct code lines of the span; measurements are in strict source order for all seven languages "
+        "(JS/TS through a kernel-computed certificate that the two header patterns never match from one start); the file "
+        "total is the sum; composed end-to-end from the lexer contract (C05_analyze).  The first proof attempt produced a "
+        "counterexample that reproduced on the real code (GD22, now fixed).  Tie: malformed stream judged by an independent "
+        "oracle recomputing positions from the raw text.",
+   note="Trusted: Coq kernel incl. vm_compute; capture.py; scope and lex models (tie H, validated by correspondence on ~1000 "
+        "malformed token streams per quick run).",
+   technique="Rocq proof (invariants of pairing/fold/count, product-automaton certificate for distinct starts) + malformed-input oracle",
+   ref="DESIGN.md section 5, C05"),
+ "C19": dict(
+   text="Coq theorems (Props/C19.v; proofs Agg/Percent.v) about the function re-translated from Report.quality_profile_percentage "
+        "on every run (exact rational reading of `/` and 0.001, ceil as integer ceiling): for all four non-negative integers the "
+        "three displayed figures are integers in 0..100 summing to 100, each strictly within two points of the true share, a "
+        "hard/unmaintainable share above 0.001 % never shows as 0, all-zero shows 100/0/0; the verdict tests of the text "
+        "summary, the Markdown summary and the table styles are each proved equal to `unm% > 0 or hard% > 20`.  The binary64 "
+        "evaluation the code performs is tied to the exact model by exhaustive comparison for totals <= 16 (quick) / 60 and "
+        "random totals up to 10^9.",
+   note="Trusted: Coq kernel; translator (rational mode for ceil); the float-vs-rational bridge is validated, not proved "
+        "(margin argument in DESIGN.md); rich rendering of cells.",
+   technique="Rocq proof (nia/lia over exact ceilings) on source-translated definitions + exhaustive small-total correspondence",
+   ref="DESIGN.md section 5, C19"),
+
  "C03": dict(
    text="Coq theorem C03_scan_total (Props/C03.v; proofs Scope/TotalProofs*.v, Gsm/HasNameProofs.v, Gsm/UnambProofs.v): for "
         "EVERY token list (any kinds, texts, positions, lengths, nesting) and every language, scan_file returns OK — each error "
